@@ -94,6 +94,7 @@ def run(chk: core.Check):
     chk.stages["free_runs"] = free
     from harness.props import c12_extra
 
+    chk.stages["settings_merge"] = c12_extra.settings_stage(chk, 40 if quick else 400, 2 if quick else 12)
     chk.stages["outcome_cache_refinement"] = c12_extra.cache_refinement_stage(chk, 12 if quick else 120, (30000 if quick else 1000000) * (10 if chk.broken else 1))
     chk.stages["unique_inputs"] = c12_extra.unique_stage(chk, (8 if quick else 80) * (3 if chk.broken else 1))
     # the stateful phase's thread (real execute_state_machine_loop under a scripted Hypothesis) vs ModelP_C11: steps after the stop
